@@ -300,6 +300,9 @@ func exec(p prog, c *hx.Case) error {
 	compactOnce := func(step int, o op) (bool, error) {
 		before := w.ll
 		faulted := ""
+		fs.mu.Lock()
+		fs.hits = 0
+		fs.mu.Unlock()
 		if o.Fault > 0 {
 			var all []*sst.Table
 			for lv := 0; lv < p.Levels; lv++ {
